@@ -8,7 +8,28 @@ type Widget struct {
 	Colour Colour `json:"colour"`
 	// two fields declared together
 	W, H int
+	// an enumeration over integers and one whose string values look like other scalars
+	Priority Priority `json:"priority"`
+	Flag     Flag     `json:"flag"`
 }
+
+// Priority is an integer enumeration
+type Priority int
+
+const (
+	PriorityLow  Priority = 1
+	PriorityHigh Priority = 2
+)
+
+// Flag is a string enumeration whose values read as a number, a boolean and a null
+type Flag string
+
+const (
+	FlagOne  Flag = "1"
+	FlagTrue Flag = "true"
+	FlagNull Flag = "null"
+	FlagOff  Flag = "off"
+)
 
 // Colour is an enumeration declared in a dot-imported package
 type Colour string
